@@ -10,7 +10,8 @@ Enumerated space (every element is one real run of the html target of the workin
                   composite, arrays of composites, union, service, namespaces to depth 3, cross-root reference generated
                   into one output directory / into separate ones, deprecated + fixed port-id).
   C  links        referrer at namespace depth 1..3 x target at depth 1..3 in the same branch / another branch / another
-                  root (one output directory and separate ones) x 6 kinds of reference.
+                  root (one output directory and separate ones) x 6 kinds of reference: 33 graphs holding all six
+                  kinds at once (core) and the 198 graphs with a single reference each (quick: seed slice).
   D  names        identifier shapes at type / field / constant / namespace position, and the shapes that alias under the
                   generator's id scheme ('.' -> '_', '_sidebar' suffix, ids fixed by the template).
   E  constants    constant expressions of every primitive kind incl. character literals '<' '&' '"'.
@@ -61,7 +62,7 @@ TOKENS = [
 ]
 MARKER_ELEMENTS = ("xq7",)
 B_EXTRA_DOCS = ["<ok>", "</pre><xq7 a=1>", "<!--ok-->", "&lt;xq7&gt;", "ok" + EOL + "<xq7 a=1>"]
-B_CORE_DOCS = ["<xq7 a=1>", "</pre>", "&amp;", "<script>xq7s(1)</script>", "<!--", '"', "é→", "ok" + EOL + "<xq7 a=1>"]
+B_CORE_DOCS = ["<xq7 a=1>", "</pre>", "&amp;", "<script>xq7s(1)</script>", "ok" + EOL + "<xq7 a=1>"]
 SPECIAL = re.compile(r"[<>&\"']")
 
 
@@ -396,17 +397,39 @@ def link_case(d_ref: int, d_tgt: int, where: str, kind: str, mode: str) -> dict:
     }
 
 
-def link_cases() -> typing.List[dict]:
-    out = []
+def link_set_case(d_ref: int, d_tgt: int, where: str, mode: str) -> dict:
+    """All six kinds of reference to one target from six referrers in one namespace (one generator run per root)."""
+    files: typing.Dict[str, str] = {}
+    roots: typing.List[str] = []
+    for i, kind in enumerate(REF_KINDS):
+        c = link_case(d_ref, d_tgt, where, kind, mode)
+        roots = c["roots"]
+        for rel, text in c["files"].items():
+            files[rel.replace("/R.1.0.dsdl", f"/R{i}.1.0.dsdl")] = text
+    return {
+        "label": f"linkset:ref_depth{d_ref}:target_depth{d_tgt}:{where}:{mode}",
+        "files": files,
+        "roots": roots,
+        "mode": mode,
+    }
+
+
+def _link_shapes() -> typing.Iterator[typing.Tuple[int, int, str, str]]:
     for d_ref in (1, 2, 3):
         for d_tgt in (1, 2, 3):
             for where in ("same_branch", "other_branch", "cross_root"):
                 if where == "other_branch" and d_tgt == 1:
                     continue  # identical to same_branch
                 for mode in ("same", "separate") if where == "cross_root" else ("same",):
-                    for kind in REF_KINDS:
-                        out.append(link_case(d_ref, d_tgt, where, kind, mode))
-    return out
+                    yield d_ref, d_tgt, where, mode
+
+
+def link_set_cases() -> typing.List[dict]:
+    return [link_set_case(*shape) for shape in _link_shapes()]
+
+
+def link_cases() -> typing.List[dict]:
+    return [link_case(d_ref, d_tgt, where, kind, mode) for d_ref, d_tgt, where, mode in _link_shapes() for kind in REF_KINDS]
 
 
 # -------------------------------------------------------------------------------- names and id aliasing (layer D)
@@ -951,7 +974,8 @@ def _replayable(case: dict) -> dict:
     return {k: case[k] for k in keep if k in case}
 
 
-HOST_BATCH = 32
+HOST_BATCH = 64
+A_SLICE = 32  # quick explores 1/32 of the 3-token strings per position (seed-selected)
 
 
 def run(ctx: Ctx) -> int:
@@ -964,7 +988,7 @@ def run(ctx: Ctx) -> int:
     core_docs = [d for n, d in docs if n <= 2]
     ext_docs = [d for n, d in docs if n == 3]
     for pos in HOSTS:
-        chosen = core_docs + [d for d in ext_docs if ctx.in_slice(f"A|{pos}|{d}")]
+        chosen = core_docs + [d for d in ext_docs if ctx.in_slice(f"A|{pos}|{d}", A_SLICE)]
         space["A_total"] += len(docs)
         space["A_explored"] += len(chosen)
         for i in range(0, len(chosen), HOST_BATCH):
@@ -977,10 +1001,11 @@ def run(ctx: Ctx) -> int:
             b_docs = [d for d in b_all if d in B_CORE_DOCS or ctx.in_slice(f"B|{g.name}|{slot}|{d}")]
             n_b_total += len(b_all)
             n_b += len(b_docs)
-            for i in range(0, len(b_docs), 7):
-                jobs.append({"type": "docs", "graph": g.name, "slot": slot, "docs": b_docs[i : i + 7], "scratch": scratch})
+            for i in range(0, len(b_docs), 11):
+                jobs.append({"type": "docs", "graph": g.name, "slot": slot, "docs": b_docs[i : i + 11], "scratch": scratch})
     # ---- layers C, D, E
-    plain = link_cases() + name_cases() + const_cases()
+    single_links = [c for c in link_cases() if ctx.in_slice("C|" + c["label"])]
+    plain = link_set_cases() + single_links + name_cases() + const_cases()
     for i in range(0, len(plain), 6):
         jobs.append({"type": "cases", "cases": plain[i : i + 6], "scratch": scratch})
 
@@ -1030,13 +1055,14 @@ def run(ctx: Ctx) -> int:
         "links_checked": ctx.stats.get("links_checked", 0),
         "generator_runs": ctx.stats.get("generator_runs", 0),
         "rule": "evaluation = one namespace generated by the real html target with every page of it judged by the "
-        "oracles (layer A: up to 32 sibling namespaces share one generator run, each has its own pages); non-trivial "
+        "oracles (layer A: up to 64 sibling namespaces share one generator run, each has its own pages); non-trivial "
         "= the varied DSDL text contains one of < > & \" ' , or the tree contains at least one relative hyperlink "
         "that was resolved, or a constant expression is varied",
         "bound_completed": f"A: {space['A_explored']}/{space['A_total']} (doc string x position; all strings of <= 2 "
         f"tokens over {len(TOKENS)} tokens at {len(HOSTS)} positions complete, 3-token strings "
-        f"{'complete' if ctx.thorough else 'seed slice 1/16'}); B: {n_b}/{n_b_total} ({len(B_GRAPHS)} graphs x every doc slot x "
-        f"{len(b_all)} strings; {len(B_CORE_DOCS)} core strings complete); C: {len(link_cases())} link graphs complete; D: {len(name_cases())} "
+        f"{'complete' if ctx.thorough else f'seed slice 1/{A_SLICE}'}); B: {n_b}/{n_b_total} ({len(B_GRAPHS)} graphs x every doc slot x "
+        f"{len(b_all)} strings; {len(B_CORE_DOCS)} core strings complete); C: {len(link_set_cases())} link graphs with all 6 "
+        f"reference kinds complete + {len(single_links)}/{len(link_cases())} single-reference link graphs; D: {len(name_cases())} "
         f"name/alias shapes complete; E: {len(const_cases())} constant expressions complete",
         "exhaustive": bool(ctx.thorough),
     }
